@@ -81,7 +81,10 @@ func scenarioC14(r *Run) {
 	cfg := WorldCfg{Carrier: carrier}
 	securityFor(r, carrier, &cfg)
 	cfg.Channels = []ChanCfg{{Name: "alpha", Target: "tcp://" + TargetIP + ":7001"}}
-	cfg.Listeners = []LsnCfg{{Channel: "alpha", Kind: "tcp", Addr: "127.0.0.1:6001"}}
+	cfg.Listeners = []LsnCfg{{Channel: "alpha", Kind: "tcp", Addr: "127.0.0.1:6001"},
+		// a listener for a channel the server does not offer: logical connections that are refused
+		// (they end before any data is piped) must be reclaimed like the others
+		{Channel: "ghost", Kind: "tcp", Addr: "127.0.0.1:6003"}}
 	n := c.OneOf("N", 3, 5, 8)
 	if r.Tier == "thorough" {
 		n = c.OneOf("N", 5, 10, 20, 40)
@@ -194,6 +197,27 @@ func scenarioC14(r *Run) {
 			r.Count("history_incomplete")
 			r.Info["incomplete"] = cs.Describe()
 			return false
+		}
+		// refused connections: the application connects to the listener of a channel the server does not
+		// offer, writes a little, and hangs up 30 s later whatever the client did with it
+		for k := c.Pick(4, "refused-connections"); k > 0; k-- {
+			conn, err := w.DialApp(cfg.Listeners[1])
+			if err != nil {
+				r.Fail("connect", "application could not connect to the ghost listener: %v", err)
+				return false
+			}
+			go func() {
+				conn.Write([]byte("hello, anybody there?"))
+				buf := make([]byte, 64)
+				for {
+					if _, err := conn.Read(buf); err != nil {
+						return
+					}
+				}
+			}()
+			r.RunFor(30 * time.Second)
+			conn.Close()
+			r.Count("refused_connections")
 		}
 		return true
 	}
